@@ -109,6 +109,13 @@ func centries(es []disk.VerifEntry) string {
 func csnap(s disk.VerifSnapshot) string {
 	return fmt.Sprintf("(mkSnap %s %s %s %s %s %s [])", centries(s.Order), CZ(s.Cur), CZ(s.Unc), CZ(s.Res), CZ(s.Queued), CU(s.Peak))
 }
+func describeReq(q *req) string {
+	if q.isPut {
+		return fmt.Sprintf("Put(%s,%s..,%d bytes)", q.kname, q.hash[:6], q.size)
+	}
+	return fmt.Sprintf("Get(%s,%s..,size=%d)", q.kname, q.hash[:6], q.size)
+}
+
 func r4k(n int64) int64 { return (n + 4095) / 4096 * 4096 }
 
 var nameRe = regexp.MustCompile(`^([a-f0-9]{64})(?:-([1-9][0-9]*))?-([0-9a-zA-Z]+)(\.v1)?$`)
@@ -221,6 +228,12 @@ func driver(seed uint64, n int, outV, outJSON string, _ []string) {
 		tmpN := 0
 		nontrivial := false
 		failed := func(what string) { rep.Fail(c, what, strings.Join(text, " ; ")) }
+		// C07 oracle "an acknowledged upload is found unless space pressure evicted it": a step of a
+		// READ request may take an entry out of the index only if that entry is the damaged file
+		// the reader failed on (never an entry committed since, never an intact one)
+		damaged := map[string]bool{}     // random suffixes of the files this case damaged
+		var stepReq *req                 // the request released in the step being observed (nil otherwise)
+		prevOrder := map[string]string{} // key -> random suffix at the previous observation
 
 		finish := func(q *req) {
 			q.done = true
@@ -307,6 +320,18 @@ func driver(seed uint64, n int, outV, outJSON string, _ []string) {
 					}
 				}
 			}
+			curOrder := map[string]string{}
+			for _, e := range snap.Order {
+				curOrder[e.Key] = e.Item.Random
+			}
+			if stepReq != nil && !stepReq.isPut {
+				for k, rnd := range prevOrder {
+					if now, ok := curOrder[k]; (!ok || now != rnd) && !damaged[rnd] {
+						failed(fmt.Sprintf("C07: a step of the read %s took the intact entry %s (file suffix %s) out of the index: an acknowledged upload is lost without space pressure", describeReq(stepReq), k, rnd))
+					}
+				}
+			}
+			prevOrder, stepReq = curOrder, nil
 			var sum int64
 			for _, e := range snap.Order {
 				sum += r4k(e.Item.SizeOnDisk)
@@ -383,6 +408,7 @@ func driver(seed uint64, n int, outV, outJSON string, _ []string) {
 			}
 			go func() { run(q); doneCh <- q }()
 			wait()
+			stepReq = q
 		}
 		unlinkOne := func() bool {
 			snap := disk.VerifCacheSnapshot(dc)
@@ -443,6 +469,7 @@ func driver(seed uint64, n int, outV, outJSON string, _ []string) {
 				mySch.current = q
 				q.resume <- struct{}{}
 				wait()
+				stepReq = q
 				observe(func() string { return fmt.Sprintf("SRun %d", idx) }, fmt.Sprintf("run %d", idx))
 			}
 		}
@@ -455,6 +482,7 @@ func driver(seed uint64, n int, outV, outJSON string, _ []string) {
 					if f, err := os.OpenFile(p, os.O_WRONLY, 0); err == nil {
 						_, _ = f.WriteAt(make([]byte, 16), 29) // zero the chunk table
 						_ = f.Close()
+						damaged[e.Item.Random] = true
 						kk := e.Key
 						observe(func() string { return "SCorrupt " + CS(kk) }, "corrupt "+e.Key[:10])
 						rep.Count("corrupt")
@@ -493,6 +521,7 @@ func driver(seed uint64, n int, outV, outJSON string, _ []string) {
 				reqs[i].resume <- struct{}{}
 				wait()
 				ii := i
+				stepReq = reqs[i]
 				observe(func() string { return fmt.Sprintf("SRun %d", ii) }, fmt.Sprintf("run %d", i))
 			}
 		}
